@@ -91,6 +91,12 @@ class World:
         return self.built.attr_info[role]
 
     def build(self, v, with_faults=True):
+        if isinstance(v, list) and v and v[0] == "alias":
+            # not a fresh value: the very object instance v[1] currently holds in attribute v[2] (internal aliasing)
+            inst = self.insts.get(v[1])
+            if inst is None or v[2] not in inst.__dict__:
+                raise SkipOp("alias source does not resolve")
+            return inst.__dict__[v[2]]
         return build_value(v, self.classes, self.faults if with_faults else None)
 
     # -- references ---------------------------------------------------------
@@ -277,6 +283,7 @@ class OpGen:
         "p_if_false": 0.04,
         "p_sentinel": 0.05,
         "p_nested_target": 0.08,
+        "p_alias": 0.0,
         "weights": {"new": 2, "scalar": 6, "element": 8, "toplevel": 3, "set": 3, "del": 1.5,
                     "get": 1, "deepcopy": 1, "mutate": 0},
         "max_insts": 4,
@@ -396,8 +403,11 @@ class OpGen:
                 fns_good, fns_bad = self.GOOD[fkind], BAD_FNS[fkind]
             if kind == "leaf" and s.chance(0.5):
                 kw["p"] = ["fn", s.choice(BAD_FNS["int"] if bad else self.GOOD["int"])]
-                if s.chance(0.4):
-                    args.append(["fn", s.choice(self.GOOD["leaf"])])
+                if s.chance(0.5):
+                    # positional transform and attribute transforms together; a transform that hands back the very
+                    # object it was given is the aliasing case
+                    fns = self.GOOD["leaf"]
+                    args.append(["fn", "ident" if ("ident" in fns and s.chance(0.4)) else s.choice(fns)])
             else:
                 args.append(["fn", s.choice(fns_bad if bad else fns_good)])
                 if s.chance(0.05):
@@ -455,6 +465,11 @@ class OpGen:
                 return s.choice([n, n + 1, -n - 1, 99])
 
             def an_existing_value():
+                if items and ik == "kitem" and s.chance(0.15):
+                    # same key as a stored element but not equal to it: by-value addressing is by equality
+                    e = s.choice(items)
+                    if isinstance(_raw(e, "k"), str):
+                        return ["kitem", {"k": _raw(e, "k"), "v": self.good("int")}]
                 if items and s.chance(0.8):
                     r = value_to_ref(s.choice(items))
                     if r is not None:
@@ -573,6 +588,13 @@ class OpGen:
                     e = s.choice(elems)
                     if kind == "kset" and s.chance(0.5):
                         return _raw(e, "k")
+                    if kind == "kset" and isinstance(_raw(e, "k"), str) and s.chance(0.35):
+                        # a probe: same key, other attributes at their default or different -- membership of a
+                        # KeyedSet is by key, so it addresses the stored member (which is what must be edited)
+                        probe = {"k": _raw(e, "k")}
+                        if s.chance(0.5):
+                            probe["v"] = self.good("int")
+                        return ["kitem", probe]
                     r = value_to_ref(e)
                     if r is not None:
                         return r
@@ -609,10 +631,10 @@ class OpGen:
         return {"op": "call", "on": {"i": iid}, "m": f"{which}_{sing}", "args": args, "kw": kw}
 
     # -- top-level helpers ------------------------------------------------------
-    def gen_toplevel(self, iid, inst, role, inplace=None):
+    def gen_toplevel(self, iid, inst, role, inplace=None, skip_attrs=()):
         s = self.src
         info = self.w.info(role)
-        names = [n for n, a in info.items() if a.get("flags", {}).get("init") is not False]
+        names = [n for n, a in info.items() if a.get("flags", {}).get("init") is not False and n not in skip_attrs]
         bad = s.chance(self.p["p_bad"])
         which = s.weighted([("update", 4), ("transform", 3), ("reset", 1.5)])
         args, kw = [], {}
@@ -649,6 +671,26 @@ class OpGen:
     def gen_set(self, iid, inst, role):
         s = self.src
         info = self.w.info(role)
+        if self.p["p_alias"] and s.chance(self.p["p_alias"]):
+            # make two attributes of one instance hold the same mutable object (x.b = x.a): same kind, or an
+            # untyped attribute as the second holder
+            pairs = []
+            shared_by_design = set()  # do_not_copy attributes are shared between copies on purpose: never aliased
+            for sp in (self.w.spec["host"], self.w.spec.get("sub") or {}):
+                opt = (sp.get("options") or {}).get("do_not_copy")
+                shared_by_design.update(opt if isinstance(opt, list) else (list(info) if opt is True else []))
+            shared_by_design.update(n for n, a in info.items() if a.get("flags", {}).get("do_not_copy"))
+            for n1, a1 in info.items():
+                v1 = _raw(inst, n1)
+                if v1 is None or isinstance(v1, (int, float, str, bool, tuple, frozenset)) or n1 in shared_by_design:
+                    continue
+                for n2, a2 in info.items():
+                    if n2 != n1 and n2 not in shared_by_design and (a2["kind"] == a1["kind"] or a2["kind"] == "any") \
+                            and not a2.get("prepare") and not a2.get("prepare_item") and not a1.get("prepare_item"):
+                        pairs.append((n1, n2))
+            if pairs:
+                n1, n2 = s.choice(pairs)
+                return {"op": "set", "on": {"i": iid}, "a": n2, "v": ["alias", iid, n1]}
         name = s.choice(list(info.keys()))
         a = info[name]
         if s.chance(self.p["p_bad"]):
@@ -727,7 +769,8 @@ class OpGen:
     # -- main entry -----------------------------------------------------------
     def gen(self, only=None, inplace=None, iid=None, skip_attrs=()):
         """only: restrict op kind(s) (str or list); iid: target instance; skip_attrs: attribute names
-        that element / nested / direct-mutation ops must not touch."""
+        that helper calls (scalar, element, top-level keywords), nested writes and direct mutations must not name
+        (an in-place helper may normalise the held collection object itself, e.g. through an item preparer)."""
         s = self.src
         w = self.w
         if not w.insts:
@@ -750,15 +793,20 @@ class OpGen:
             info = w.info(role)
             op = None
             if kind == "scalar":
-                name = s.choice(list(info.keys()))
-                op = self.gen_scalar(iid, inst, name, info[name], inplace)
+                # nested spec values and collections of them reach the deep paths of the value pipeline
+                # (protective copies, attribute transforms): weighted up against the scalar kinds
+                cands = [(n, 3 if a["kind"] == "leaf" else (1.5 if a["kind"] in COLL_KINDS else 1))
+                         for n, a in info.items() if n not in skip_attrs]
+                if cands:
+                    name = s.weighted(cands)
+                    op = self.gen_scalar(iid, inst, name, info[name], inplace)
             elif kind == "element":
                 colls = [n for n, a in info.items() if a["kind"] in COLL_KINDS and n not in skip_attrs]
                 if colls:
                     name = s.choice(colls)
                     op = self.gen_element(iid, inst, name, info[name], inplace)
             elif kind == "toplevel":
-                op = self.gen_toplevel(iid, inst, role, inplace)
+                op = self.gen_toplevel(iid, inst, role, inplace, skip_attrs)
             elif kind == "set":
                 if s.chance(self.p["p_nested_target"] * 3):
                     op = self.gen_nested_write(iid, inst, role)
